@@ -52,14 +52,51 @@ FIXED = [
                                 ['num', '3']]},
      'sheets': ['Sheet1', 'Sheet2']},
 ]
+FIXED.append(
+    # type-sensitive dependants: a set to an EQUAL value of another type
+    # (1 -> TRUE, 1 -> 1.0, 0 -> FALSE) must not be dropped
+    {'inputs': {'Sheet1!A1': 1},
+     'formulas': {'Sheet1!B1': ['op', '&', ['ref', 'A1'], ['str', 'x']],
+                  'Sheet1!C1': ['call', 'ISNUMBER', [['ref', 'A1']]],
+                  'Sheet1!D1': ['call', 'IF', [
+                      ['op', '=', ['ref', 'A1'], ['num', '1']],
+                      ['str', 'one'], ['ref', 'B1']]]},
+     'sheets': ['Sheet1'], 'setvals': [True, 1.0, 0, False, 1]})
 for _m in FIXED:
     _m['order'] = list(_m['formulas'])
+PLACEHOLDER = 987654321
+
+
+def vtag(v):
+    if isinstance(v, bool):
+        return ('B', v)
+    if isinstance(v, str):
+        return ('T', v)
+    return ('N', float(v))
+
+
+def compile_with(model, inputs):
+    """compiled library model holding these inputs (values the dict format
+    cannot carry - booleans - are applied with set_cell_value on top of a
+    placeholder that equals no generated value)."""
+    xl = lib.lib()
+    d = GM.to_dict(model, inputs)
+    presets = {}
+    for a, v in inputs.items():
+        if isinstance(v, bool):
+            d[a] = PLACEHOLDER
+            presets[a] = v
+    m = lib.compile_dict(d)
+    ev = xl.Evaluator(m)
+    for a, v in presets.items():
+        ev.set_cell_value(a, v)
+    return m, ev
 
 
 def _alphabet(m):
     ops = []
     for i in sorted(m['inputs']):
-        for v in (7, 11.5):
+        for v in m.get('setvals', (7, 11.5)):
             ops.append(['set', i, v])
     for c in sorted(m['formulas']):
         ops.append(['eval', c])
@@ -103,7 +140,8 @@ def _build(d, maxsteps):
             hist.append(['eval', c])
             if clo:
                 hist.append(['set', d.choice(clo),
-                             d.choice([0, 1, -3, 2.5, 10, 100, 7, 42])])
+                             d.choice([0, 1, -3, 2.5, 10, 100, 7, 42, 1.0, 0.0,
+                                   7.0])])
             if d.pick(3) == 0:
                 hist.append(['eval', d.choice(model['order'])])
             hist.append(['eval', c])
@@ -140,12 +178,12 @@ _fresh_cache = {}
 
 def _fresh(model, inputs, addr, key):
     """library value of addr in a freshly compiled model with these inputs"""
-    k = (key, tuple(sorted(inputs.items())), addr)
+    k = (key, tuple(sorted((a, repr(v)) for a, v in inputs.items())), addr)
     if key is not None and k in _fresh_cache:
         return _fresh_cache[k]
     try:
-        m = lib.compile_dict(GM.to_dict(model, inputs))
-        v = lib.evaluate(m, addr)
+        m, ev = compile_with(model, inputs)
+        v = lib.evaluate(m, addr, ev)
     except Exception as err:  # noqa: BLE001
         v = exc_tag(err)
     if key is not None:
@@ -191,13 +229,13 @@ def judge(case):
                 res.fail('set-exception', 'ok', exc_tag(err), op)
                 return res
             inputs[a] = v
-            last_known[a] = ('N', float(v))
+            last_known[a] = vtag(v)
             try:
                 g = norm(ev.get_cell_value(a))
             except Exception as err:  # noqa: BLE001
                 g = exc_tag(err)
-            if g != ('N', float(v)):
-                res.fail('get-after-set', ('N', float(v)), g, [step, op])
+            if g != vtag(v):
+                res.fail('get-after-set', vtag(v), g, [step, op])
                 return res
             continue
         if kind == 'get':
@@ -244,7 +282,7 @@ def judge(case):
                 return res
         else:
             v = inputs.get(a)
-            want = ('N', float(v)) if v is not None else ('Z',)
+            want = vtag(v) if v is not None else ('Z',)
             if obs != want:
                 res.fail('input-evaluates-to-other-value', want, obs,
                          [step, op])
